@@ -277,6 +277,10 @@ class World:
                 body = '{"result":1,"error":17}'; exp_code = -344
             elif shape == 'list':
                 body = '{"result":null,"error":["x"]}'; exp_code = -344
+            elif shape.startswith('falsy-'):
+                tok = {'falsy-dict': '{}', 'falsy-string': '""', 'falsy-zero': '0', 'falsy-list': '[]', 'falsy-false': 'false'}[shape]
+                body = '{"result":%s,"error":%s,"id":1}' % ('7' if code % 2 else 'null', tok)
+                exp_code = -345 if shape == 'falsy-dict' else -344
             elif shape == 'noresult':
                 body = '{"error":null,"id":1}'; exp_code = -343
             elif shape == 'nonjson':
@@ -341,7 +345,8 @@ hash_sources = st.sampled_from(['getbestblockhash', 'getblockhash', 'getrawmempo
 hash_sinks = st.sampled_from(['getblock', 'getblockheader', 'getrawtransaction', 'getrawtransaction-in-block', 'gettransaction', 'gettxout', 'lockunspent'])
 err_methods = st.sampled_from(['getbalance', 'getblock', 'getblockheader', 'getrawtransaction', 'gettransaction', 'getblockhash', 'sendtoaddress', 'call',
                                'getbestblockhash', 'gettxout', 'sendrawtransaction'])
-err_shapes = st.sampled_from(['dict', 'dict', 'dict', 'dict+result', 'nocode', 'nomessage', 'string', 'number', 'list', 'noresult', 'nonjson', 'empty'])
+err_shapes = st.sampled_from(['dict', 'dict', 'dict', 'dict+result', 'nocode', 'nomessage', 'string', 'number', 'list', 'noresult', 'nonjson', 'empty',
+                              'falsy-dict', 'falsy-string', 'falsy-zero', 'falsy-list', 'falsy-false'])
 codes = st.one_of(st.sampled_from(sorted(REG)), st.sampled_from([-1, -3, -4, -6, -32601, -32700, 0, 1, -342, -343, -344, -345]), st.integers(-40, 5))
 hashes = st.one_of(gen.hash32, st.sampled_from([bytes(31) + b'\x01', b'\x01' + bytes(31), bytes(range(32))]))
 
@@ -400,7 +405,8 @@ def t_amounts(ctx):
     for k in range(0, len(ops), 40):
         ctx.run({'ops': ops[k:k + 40]})
     # every registered code through every wrapper
-    eops = [['error', m, 'dict', c] for c in sorted(REG) + [-1, -32601] for m in ('getbalance', 'getblock', 'getblockheader', 'getrawtransaction',
+    eops = [['error', m, sh_, c] for sh_ in ('falsy-dict', 'falsy-string', 'falsy-zero', 'falsy-list', 'falsy-false', 'string', 'number', 'list', 'nocode', 'noresult') for c in (1, 2) for m in ('getbalance', 'call')] + \
+        [['error', m, 'dict', c] for c in sorted(REG) + [-1, -32601] for m in ('getbalance', 'getblock', 'getblockheader', 'getrawtransaction',
                                                                                     'gettransaction', 'getblockhash', 'call', 'sendrawtransaction')]
     for k in range(ctx.shard, len(eops), ctx.nshards * 20):
         ctx.run({'ops': eops[k:k + 20]})
